@@ -543,6 +543,7 @@ class Evaluator:
         if isinstance(it, dict):
             return list(it.keys())
         if isinstance(it, (set, frozenset)):
+            self.events.append(("set-iterated", node))
             return sorted(it, key=repr)
         if isinstance(it, range):
             return list(it)
@@ -1027,6 +1028,16 @@ class Evaluator:
             return {ast.Lt: l < r, ast.LtE: l <= r, ast.Gt: l > r, ast.GtE: l >= r}[type(op)]
         return TOP
 
+    def e_Yield(self, e, env, fi):
+        v = self.ev(e.value, env, fi) if e.value is not None else None
+        sc = env
+        while sc is not None and "__yields__" not in sc.vars:
+            sc = sc.parent
+        if sc is None:
+            raise Unmodelled("yield outside a generator frame", e)
+        sc.vars["__yields__"].append(v)
+        return None
+
     def e_Lambda(self, e, env, fi):
         return FuncV(None, e, env, env.module, "<lambda>")
 
@@ -1127,6 +1138,32 @@ class Evaluator:
                 return m(self, args, kwargs, node)
             if f.path in ("collections.OrderedDict", "collections.defaultdict") and f.path.endswith("OrderedDict"):
                 return self.call_builtin("dict", args, kwargs, node)
+            if f.path in ("itertools.product", "itertools.combinations", "itertools.permutations", "itertools.chain"):
+                import itertools as _it
+
+                if any(a is TOP or isinstance(a, Obj) for a in args):
+                    return TOP
+                seqs = [self.iterate(a, node) if not isinstance(a, int) else a for a in args]
+                for a_, sq in zip(args, seqs):
+                    if isinstance(a_, (set, frozenset)):
+                        self.events.append(("set-order-consumed", f.path, node))
+                fn_ = getattr(_it, f.path.split(".")[1])
+                return _Iter([tuple(x) if not f.path.endswith("chain") else x for x in fn_(*seqs, **{k: v for k, v in kwargs.items() if isinstance(v, int)})])
+            if f.path == "functools.reduce":
+                fn_, seq = args[0], args[1]
+                if seq is TOP:
+                    return TOP
+                items = self.iterate(seq, node)
+                acc = args[2] if len(args) > 2 else None
+                start = 0
+                if acc is None:
+                    acc, start = items[0], 1
+                for x in items[start:]:
+                    if isinstance(fn_, ExtRef) and fn_.path in ("operator.mul", "operator.add"):
+                        acc = self.binop(ast.Mult() if fn_.path.endswith("mul") else ast.Add(), acc, x, node)
+                    else:
+                        acc = self.call(fn_, [acc, x], {}, node)
+                return acc
             self.events.append(("extcall", f.path, args, kwargs, node))
             if f.path.endswith("warnings.warn"):
                 return None
@@ -1203,7 +1240,13 @@ class Evaluator:
             if isinstance(fn, ast.Lambda):
                 return self.ev(fn.body, scope, fi2)
             if _is_generator(fn):
-                raise Unmodelled("generator function", node)
+                # evaluated eagerly: the values yielded, in order (sound for generators without side effects)
+                scope.vars["__yields__"] = []
+                try:
+                    self.exec_block(fn.body, scope, fi2 or FuncInfo(f.name, f.module, fn, None, None))
+                except _Return:
+                    pass
+                return _Iter(scope.vars["__yields__"])
             try:
                 self.exec_block(fn.body, scope, fi2 or FuncInfo(f.name, f.module, fn, None, None))
             except _Return as r:
